@@ -1,5 +1,7 @@
 (* Properties_C20.v — C20: validate() reports real conflicts, and only those. *)
-From ElfioV Require Import Bytes Mem Stream SectionData Elfio Table Layout Writer Validate_proofs Layout_proofs Validate_writer Segment_proofs Validate_oneseg.
+From ElfioV Require Import Bytes Mem Stream SectionData Elfio Table Layout Writer Validate_proofs Layout_proofs Validate_writer Segment_proofs Validate_oneseg
+     Loader Stream Strings Codec_proofs Ostream_proofs Reader_proofs Writer_proofs Oneseg_proofs Oneseg_writer Oneseg_members Reload_oneseg Validate_reload.
+From Coq Require Import Sorted.
 Local Open Scope N_scope.
 
 (* Two non-empty sections that occupy file space and share a file byte are
@@ -106,6 +108,60 @@ Proof.
   eexists. split; [vm_compute; reflexivity|]. split; [vm_compute; reflexivity|]. split; [vm_compute; reflexivity|].
   repeat constructor; vm_compute; discriminate.
 Qed.
+
+(* validate() reads nothing but header fields - of the sections: type, size, offset, address, index; of the segments:
+   type, offset, file size, address, index - so it says the same about any two objects that report the same fields *)
+Theorem C20_validate_reads_headers_only :
+  forall el1 el2,
+    Forall2 sec_alike (el_secs el1) (el_secs el2) -> Forall2 seg_alike (el_segs el1) (el_segs el2) ->
+    validate el2 = validate el1.
+Proof. exact validate_reads_headers_only. Qed.
+Print Assumptions C20_validate_reads_headers_only.
+
+(* ... hence the RELOADED form of the file saved from a one-segment object (the class above) is accepted as well: the
+   sections and the segment that the two loader loops report for the saved file (C05_one_segment_survives_reload)
+   form an object validate() has nothing to say about *)
+Theorem C20_accepts_reloaded_writer_output_with_one_segment :
+  forall junk el h0 g bound ms,
+    let idxs := g_sections g in
+    let align := if 0 <? p_align g then p_align g else 1 in
+    let secs := el_secs el in
+    let pos0 := e_ehsize h0 + e_phentsize h0 in
+    el_hdr el = Some h0 -> el_segs el = [g] -> lenN secs < 2 ^ 16 ->
+    lenN idxs < 2 ^ 16 -> idxs <> [] -> g_offset_set g = false -> p_type g <> PT_PHDR -> NoDup idxs ->
+    Forall2 (fun i s => nth_optN secs i = Some s) idxs ms ->
+    Forall auto_member ms -> Forall (fun s => sh_addralign s <= p_align g) ms ->
+    bound <= 2 ^ 62 -> Forall (fun s => bound <= 2 ^ xw (s_cls s)) secs -> bound <= 2 ^ xw (g_cls g) ->
+    bound <= 2 ^ xw (e_cls h0) -> p_align g < 2 ^ 63 ->
+    p_vaddr g + pos0 + align + mbudget ms + budget secs + 16 + e_shentsize h0 * lenN secs < bound ->
+    indexed_from 0 secs ->
+    (forall s, In s secs -> s_index s = 0 -> csize s = 0) ->
+    (forall s b, In s secs -> s_data s = Some b -> sh_size s <= lenN b) ->
+    lenN (e_ident h0) = 16 -> e_ehsize h0 = ehdr_size (e_cls h0) ->
+    (forall s, In s secs -> shdr_size (s_cls s) <= e_shentsize h0) ->
+    phdr_size (g_cls g) <= e_phentsize h0 -> g_index g = 0 -> e_shentsize h0 = shdr_size (e_cls h0) ->
+    p_type g <> PT_TLS -> Forall (fun s => sh_size s <> 0) ms ->
+    (forall j s, ~ In j idxs -> nth_optN secs j = Some s ->
+       is_tls s \/ (is_alloc s /\ sh_addr s < p_vaddr g) \/ (~ is_alloc s /\ (s_index s = 0 -> sh_offset s < pos0))) ->
+    secs <> [] ->
+    (forall s, In s secs -> sh_type s = SHT_NULL -> sh_size s = 0) ->
+    (forall s, In s secs -> s_index s = 0 -> sh_size s = 0 \/ sh_type s = SHT_NOBITS) ->
+    exists el' h' g',
+      layout el = Ok (el', true) /\ el_hdr el' = Some h' /\ el_segs el' = [g'] /\ validate el' = [] /\
+      let plan := oneseg_plan h' (el_secs el') (segments_plan (e_enc h') h' [g']) in
+      (plan_small 0 plan -> phdr_wf g' ->
+       (forall s, In s (el_secs el') -> s_cls s = e_cls h' /\ shdr_wf s) ->
+       p_vaddr g + p_memsz g' < 2 ^ 64 -> StronglySorted N.lt idxs ->
+       forall k f,
+       let file := os_bytes (exec_plan (new_ostream None) plan) in
+       exists st1 loaded st2 r,
+         load_sections_loop junk (length secs) (open_istream k file) [] (e_cls h') (e_enc h') (e_shoff h') (e_shentsize h')
+                            0 (e_shnum h') true [] [] = Ok (st1, rev loaded, []) /\
+         load_segments_loop (S f) st1 [] loaded (e_enc h') (g_cls g') (e_phoff h') (e_phentsize h') 0 (e_phnum h') true [] [] =
+           Ok (st2, [r], true, []) /\
+         forall elr, el_secs elr = loaded -> el_segs elr = [r] -> validate elr = []).
+Proof. exact validate_accepts_reloaded_oneseg. Qed.
+Print Assumptions C20_accepts_reloaded_writer_output_with_one_segment.
 
 (* the pair test is exact on sections that occupy file space *)
 Theorem C20_pair_test_exact :
